@@ -22,6 +22,6 @@ Definition live_or_raise_statement : Prop :=
 (** 404 at t = 10 ms, connect error, silently closed stream: all entered. *)
 Lemma C12_prefix_live_or_raise_refuted : ~ live_or_raise_statement.
 Proof.
-  intros H. specialize (H cfg_head [104;116;116;112;58;47;47;104] 5000 (EstResp 10 404 [] None)). 
+  intros H. specialize (H cfg_orig [104;116;116;112;58;47;47;104] 5000 (EstResp 10 404 [] None)). 
   assert (0 < 5000) by lia. specialize (H H0). vm_compute in H. apply H. reflexivity.
 Qed.
